@@ -9,3 +9,40 @@ package p2p
 func (sc *SecretConnection) VerifNonces() (recv, send [24]byte) {
 	return *sc.recvNonce, *sc.sendNonce
 }
+
+// VerifPacket mirrors msgPacket for the harness.
+type VerifPacket struct {
+	ChannelID byte
+	EOF       byte
+	Bytes     []byte
+}
+
+// VerifChannel drives one Channel's packetisation and reassembly without a connection.
+type VerifChannel struct{ ch *Channel }
+
+// NewVerifChannel creates a channel with the given receive message capacity (0 = default).
+func NewVerifChannel(id byte, recvMessageCapacity int) *VerifChannel {
+	return &VerifChannel{newChannel(nil, &ChannelDescriptor{ID: id, Priority: 1, RecvMessageCapacity: recvMessageCapacity})}
+}
+
+// Packetise queues msg and returns the packets the send routine would write for it.
+func (v *VerifChannel) Packetise(msg []byte) []VerifPacket {
+	var out []VerifPacket
+	if !v.ch.trySendBytes(msg) {
+		return nil
+	}
+	for v.ch.isSendPending() {
+		p := v.ch.nextMsgPacket()
+		out = append(out, VerifPacket{p.ChannelID, p.EOF, append([]byte{}, p.Bytes...)})
+	}
+	return out
+}
+
+// Recv hands one packet to the channel's reassembly.
+func (v *VerifChannel) Recv(p VerifPacket) ([]byte, error) {
+	b, err := v.ch.recvMsgPacket(msgPacket{ChannelID: p.ChannelID, EOF: p.EOF, Bytes: p.Bytes})
+	if b != nil {
+		b = append([]byte{}, b...)
+	}
+	return b, err
+}
